@@ -1,3 +1,4 @@
+import CantoVerif.Model.Abi
 import CantoVerif.Driver.Common
 import CantoVerif.Spec.Govshuttle
 /-!
@@ -71,6 +72,36 @@ def applyKV (s : State) (kv : KV) (qprefix : String) : State :=
     if k.startsWith qprefix && (k.drop qprefix.length).toString.all Char.isDigit && k.length > qprefix.length then
       { s with store := sset s.store (natOf (k.drop qprefix.length).toString) (parseRecord v) }
     else s) s
+
+/-- the record as a value of the contract ABI (`Proposal` tuple of `contracts/Port.sol`) -/
+def abiOf (p : Proposal) : Abi.Val :=
+  .tuple [.uint p.id, .str p.title, .str p.desc, .arr (p.targets.map Abi.Val.addr), .arr (p.values.map Abi.Val.uint),
+          .arr (p.signatures.map Abi.Val.str), .arr (p.calldatas.map Abi.Val.bytes)]
+
+partial def valBeq : Abi.Val → Abi.Val → Bool
+  | .uint a, .uint b => a == b
+  | .addr a, .addr b => a == b
+  | .bytes a, .bytes b => a == b
+  | .str a, .str b => a == b
+  | .arr a, .arr b => a.length == b.length && (a.zip b).all (fun (x, y) => valBeq x y)
+  | .tuple a, .tuple b => a.length == b.length && (a.zip b).all (fun (x, y) => valBeq x y)
+  | _, _ => false
+
+/-- `r<id>=<hex>`: the bytes the compiled contract returned for `QueryProp(id)` on the real EVM.  The Lean model of the
+contract ABI (`Model/Abi.lean`, round trip proved in `Props/AbiRoundTrip.lean`) must (a) encode the observed record to exactly
+these bytes and (b) decode these bytes to exactly the observed record.  Ids for which either fails. -/
+def abiBadIds (post : State) (dkv : KV) : List Nat :=
+  dkv.foldl (fun bad (k, v) =>
+    if k.startsWith "r" && (k.drop 1).toString.all Char.isDigit && k.length > 1 then
+      let id := natOf (k.drop 1).toString
+      let raw := hexB v
+      let val := abiOf (queryStore post.store id)
+      let encOk := Abi.encodeTuple [(Abi.proposalTy, val)] == raw
+      let decOk := match Abi.decodeTuple [Abi.proposalTy] raw with
+        | some [v'] => valBeq v' val
+        | _ => false
+      if encOk && decOk then bad else bad ++ [id]
+    else bad) []
 
 def emptyState : State := { port := none, store := [], nextGovId := 0, nonce := 0 }
 def emptyEnv : Env := { authority := [], modAddr := [], create := [] }
@@ -207,12 +238,14 @@ def processLine (acc : Acc) (line : String) : Acc :=
           | none, some a => [a]
           | _, _ => []
         let badIds := ids.filter (fun q => query modelPost q != query implPost q)
+        let abiBad := abiBadIds implPost dkv
         let comps : List String :=
           (if modelOk != implOk || (later && handlerOk != (implClass == "rej:later")) then ["outcome"] else []) ++
           (if modelPost.port != implPost.port then ["port"] else []) ++
           (if modelPost.nonce != implPost.nonce then ["nonce"] else []) ++
           (if modelPost.nextGovId != implPost.nextGovId then ["next"] else []) ++
           (if !badIds.isEmpty then ["store"] else []) ++
+          (if !abiBad.isEmpty then ["abi"] else []) ++
           (if bankChanged || newAccts != modelAccts then ["bank"] else [])
         let tr : Spec.Tr := { env := acc.env, pre := pre, op := op0, ok := implOk, post := implPost, ids := ids,
                               bankChanged := bankChanged, newAccts := newAccts }
@@ -224,7 +257,8 @@ def processLine (acc : Acc) (line : String) : Acc :=
           if comps.isEmpty then s!"{seq} A {tag}"
           else s!"{seq} D {tag} comps={",".intercalate comps} model={if modelOk then "ok" else "rej:" ++ modelRej} impl={implClass} " ++
                s!"port(model={repr modelPost.port} impl={repr implPost.port}) nonce(model={modelPost.nonce} impl={implPost.nonce}) " ++
-               " ".intercalate (badIds.map (fun q => s!"q{q}(model={showProp (query modelPost q)} impl={showProp (query implPost q)})"))
+               " ".intercalate (badIds.map (fun q => s!"q{q}(model={showProp (query modelPost q)} impl={showProp (query implPost q)})")) ++
+               (if abiBad.isEmpty then "" else s!" abi-mismatch-ids={abiBad}")
         { acc with cur := implPost, ids := ids, out := (acc.out.push l) ++ viol.toArray }
     | _ => { acc with out := acc.out.push "? E malformed" }
   else acc
